@@ -241,5 +241,39 @@ fn main() {
         t.transitions += other_names.len() as u64;
         check_other_kind(t, &p, &other_names);
     });
+    // scale: long patterns and names
+    {
+        let mut t = Tally::new();
+        let mut count = 0;
+        for n in [16usize, 64, 255, 256, 257, 1000, 4096] {
+            let lit = "ab".repeat(n / 2);
+            let pats = [
+                lit.clone(),
+                format!("{}*", lit),
+                format!("*{}", lit),
+                format!("{}-[0-9]*", lit),
+                format!("{}?{}", lit, lit),
+                format!("{}[ab]", "?".repeat(n - 1)),
+                format!("a*{}*b", &lit[..n / 2]),
+            ];
+            let names = vec![
+                lit.clone(),
+                format!("{}a", lit),
+                format!("{}-1.0", lit),
+                format!("{}x{}", lit, lit),
+                format!("b{}", &lit[1..]),
+                format!("a{}", &lit[1..]),
+                format!("{}-", lit),
+                format!("a{}b", lit),
+            ];
+            for p in &pats {
+                t.states += 1;
+                count += 1;
+                check(&mut t, p, &names);
+            }
+        }
+        run.bound(format!("scale: {} glob / plain patterns of 16..4096 characters x 8 names each", count));
+        run.merge(t);
+    }
     run.finish();
 }
